@@ -116,7 +116,17 @@ def check_site(ctx, fi, name, total, latom, loff, node, guard_cond=None):
                     continue            # presence test of the key
                 if a.kind == 'cmp' and any(isinstance(x, Term) and x.single_atom() is not None and x.single_atom().kind == 'str'
                                            for x in a.args[1:]):
-                    continue            # compared with a text literal: a textual test of a textual value
+                    # compared with a text literal: a textual test of a textual value -- right only for the NORMALISED text
+                    # (read_header keeps the blanks the writer pads short string values with: the card of a string zero
+                    # reads back as '0       '); the bare card against a literal is a different test from int(card) != 0
+                    def bare_card(x):
+                        xa = x.single_atom() if isinstance(x, Term) else None
+                        return xa is not None and ((xa.kind == 'call' and xa.args[0] in ('.get', 'get') and len(xa.args[1]) >= 2
+                                                    and xa.args[1][1].key == lift('DIRECTIO').key)
+                                                   or (xa.kind == 'sub' and xa.args[1].key == lift('DIRECTIO').key))
+                    if not under_int:
+                        out.extend(x.single_atom() for x in a.args[1:] if bare_card(x))
+                    continue
                 inner_int = a.kind == 'call' and a.args[0] in ('trunc', 'int', 'float', 'round')
                 for x in a.args:
                     for y in (x if isinstance(x, tuple) else (x,)):
